@@ -151,3 +151,30 @@ CHECKS["C14"] = {
     "runs": [c14run("run.pl.mediaHeader", "VerifH_C14_mediaHeader"), c14run("run.pl.segment", "VerifH_C14_segment"),
              c14run("run.pl.parts", "VerifH_C14_parts"), c14run("run.pl.multivariant", "VerifH_C14_multivariant")],
 }
+
+C15F = [P + "c15_decoder.go", P + "c15_grammar.go", P + "c14_roundtrip.go"]
+
+
+def c15g(name, fn):
+    return {"name": name, "dir": "pkg/playlist", "files": C15F, "fn": fn, "workers": 16, "params": {"VARIANTS": 0},
+            "params_quick": {"MAXINT": 9999}, "params_thorough": {"MAXINT": 2147483647}, "reach": ["roundtrip-done"], "budget_quick": 900, "budget_thorough": 7200}
+
+
+CHECKS["C15"] = {
+    "technique": "arbitrary symbolic bytes after each tag in a valid frame through the real decoders (panic conditions and structural post-conditions as solver queries); "
+                 "an independent strict RFC 8216 line grammar, symbolically executed over the real Marshal output for the C14 value space",
+    "bounds": {"quick": {"decoder": "one tag (27 media / 9 multivariant prefixes, incl. attribute-list prefixes) + 5 arbitrary bytes, in two frame positions", "grammar": "C14 value space with integers < 10^4"},
+               "thorough": {"decoder": "8 arbitrary bytes", "grammar": "integers < 2^31"}},
+    "assumptions": ["strconv.ParseFloat / time.Parse on symbolic text return a nondeterministic (representative value | error), incl. 0, NaN and +Inf for floats",
+                    "segment titles ASCII (strings.TrimSpace's Unicode path not encoded)", "a MediaServerControl value sets at least one attribute",
+                    "playlists served by a muxer are covered through the C14 value space (same Marshal code) and, natively, by the replay of the muxer harnesses"],
+    "outside": ["more than one arbitrary line per document", "coverage-guided fuzzing of whole documents (different technique)"],
+    "runs": [
+        {"name": "run.pl.decoder.media", "dir": "pkg/playlist", "files": C15F, "fn": "VerifH_C15_mediaDecoder", "workers": 16,
+         "params_quick": {"L": 5}, "params_thorough": {"L": 8}, "reach": ["accepted", "rejected"], "budget_quick": 900, "budget_thorough": 7200},
+        {"name": "run.pl.decoder.multi", "dir": "pkg/playlist", "files": C15F, "fn": "VerifH_C15_multiDecoder", "workers": 16,
+         "params_quick": {"L": 5}, "params_thorough": {"L": 8}, "reach": ["accepted", "rejected"], "budget_quick": 900, "budget_thorough": 7200},
+        c15g("run.pl.grammar.header", "VerifH_C14_mediaHeader"), c15g("run.pl.grammar.segment", "VerifH_C14_segment"),
+        c15g("run.pl.grammar.parts", "VerifH_C14_parts"), c15g("run.pl.grammar.multivariant", "VerifH_C14_multivariant"),
+    ],
+}
